@@ -165,6 +165,8 @@ def run(ctx, rep):
                             input=inp, impl_output=i[:12], oracle=dict(name="dense accessor", value=canon(dense_ref)[:12]))
     rep.sample(dict(line=lines[0][:300], impl=canon(expect[0])[:8], model=decode(outs[0])[:8]))
     rep.sample(dict(site=meta[-1][0], input={k: meta[-1][1][k] for k in ("datafit", "X", "y", "w")}))
+    from . import c06_ext
+    c06_ext.run_all(ctx, rep)
 
 
 def replay(ctx, payload):
